@@ -55,7 +55,6 @@ inductive Err
   | unsupportedHash                       -- UnsupportedHash
   | signing                               -- OpenPGPSigningFailure
   | os (e : Errno)                        -- a genuine OSError
-  | compress                              -- invalid compressed data
   | internal (k : IntKind)                -- AttributeError, KeyError, IndexError, AssertionError …
   | abstain                               -- outside what the model covers (reported, never compared)
 deriving DecidableEq, Repr
